@@ -749,6 +749,56 @@ def m2e_side_case(k):
 
 
 # =========================================================================== Infos
+def infos_copy_case():
+    """`state.infos` describes the state it is asked of: the real `StateVector.infos` getter (run on the carrier, whose
+    `copy()` hands the extra fields over like `StateVector.copy` does -- `v.copy()` where there is one, the same object
+    otherwise) after the original has been asked once, its copy been given another semi-major axis, and asked in turn"""
+    from symx.stubs import FrameStub, SymTD, Carrier
+    ins = [("mu", "pos"), ("a", "pos"), ("a2", "pos"), ("e", "pos"), ("i", "angle"), ("Om", "angle"), ("om", "angle"), ("nu", "angle")]
+
+    def pre(v):
+        return [v["e"] < 1]
+
+    def run(env, v):
+        if env.symbolic:
+            forms = env.mod("beyond.orbits.forms")
+            sv = env.mod("beyond.orbits.statevector")
+            sv.timedelta = lambda seconds=0: SymTD(seconds)
+
+            class SV(Carrier):
+                infos = sv.StateVector.__dict__["infos"]            # the real getter
+
+                def copy(self, **kw):
+                    new = Carrier.copy(self, **kw).view(SV)
+                    new.__dict__["_data"] = {k: (x.copy() if hasattr(x, "copy") else x) for k, x in self.__dict__.get("_data", {}).items()}
+                    return new
+            orb = carrier([v["a"], v["e"], v["i"], v["Om"], v["om"], v["nu"]], frame=FrameStub("EME2000", v["mu"], r=0),
+                          form=forms.KEPL).view(SV)
+            orb.__dict__["_data"] = {}
+            n1 = orb.infos.n
+            c = orb.copy()
+            c[0] = v["a2"]
+            n2 = c.infos.n
+            return {"copy_n2a3": n2 * n2 * v["a2"] ** 3, "original_n2a3": orb.infos.n * orb.infos.n * v["a"] ** 3, "first_n2a3": n1 * n1 * v["a"] ** 3}
+        from beyond.orbits import StateVector
+        from beyond.dates import Date
+        from beyond.constants import Earth
+        a, a2 = float(v["a"]) * 1e7, float(v["a2"]) * 1e7
+        orb = StateVector([a, min(float(v["e"]), 0.9), v["i"], v["Om"], v["om"], v["nu"]], Date(2020, 1, 1), "keplerian", "EME2000")
+        n1 = orb.infos.n
+        c = orb.copy()
+        c[0] = a2
+        n2 = c.infos.n
+        k = float(v["mu"]) / Earth.mu
+        return {"copy_n2a3": n2 * n2 * a2 ** 3 * k, "original_n2a3": orb.infos.n ** 2 * a ** 3 * k, "first_n2a3": n1 * n1 * a ** 3 * k}
+
+    def ref(env, v, out):
+        return {"copy_n2a3": v["mu"], "original_n2a3": v["mu"], "first_n2a3": v["mu"]}
+    return Case("infos/copy", ins, run, ref, pre=pre, timeout=60, tol=1e-9, abs_tol=1e-12,
+                desc="the infos of a copy whose semi-major axis has been changed describe the copy (n^2 a^3 = mu with its own a), those "
+                     "of the original still describe the original")
+
+
 def infos_case(family):
     from symx.stubs import FrameStub, SymTD
 
@@ -865,7 +915,7 @@ def all_cases(tier):          # noqa: F811  (extends the list defined above)
     for fam in ("ell", "hyp"):
         cs += [ecc_case(fam), ecc_back_case(fam), mean_case(fam), mean_back_case(fam), k2c_case(fam), kck_case(fam, 30 if tier == "quick" else 600),
                m2e_case(fam, 8 if tier == "quick" else 9, 120 if tier == "quick" else 300), m2e_start_case(fam), infos_case(fam)]
-    cs += [tle_case(), tle_back_case(), circ_case(False), circ_case(True), equi_case(), c2k_def_case("any")] + \
+    cs += [tle_case(), tle_back_case(), circ_case(False), circ_case(True), equi_case(), c2k_def_case("any"), infos_copy_case()] + \
           [m2e_side_case(k) for k in ((-11, 0, 1, 94) if tier == "quick" else (-200, -11, -2, -1, 0, 1, 2, 3, 94, 200))]
     return cs
 
